@@ -109,6 +109,28 @@ def audit(prop, names):
     return rc == 0, res, txt
 
 
+def lw_imports(mod, seen=None):
+    """the module and every LW.Proofs / LW.Props module it imports, transitively (import lines of the sources)."""
+    seen = seen if seen is not None else []
+    if mod in seen:
+        return seen
+    path = os.path.join(LEAN, *mod.split('.')) + '.lean'
+    if not os.path.exists(path):
+        return seen
+    if mod.startswith('LW.Props.') or mod.startswith('LW.Proofs.'):
+        seen.append(mod)
+    for m in re.findall(r'^import\s+(LW\.[A-Za-z0-9_.]+)', open(path).read(), flags=re.M):
+        if m.startswith('LW.Proofs.') or m.startswith('LW.Props.'):
+            lw_imports(m, seen)
+    return seen
+
+
+def leanchecker(mods):
+    """Lean's independent checker replays the declarations of the compiled modules through the kernel."""
+    rc, out, err = sh(['lake', 'env', 'leanchecker'] + mods, cwd=LEAN, timeout=3600)
+    return rc == 0, out + err
+
+
 def failing_theorem(prop, lake_out):
     """name of the first theorem of Props/<prop>.lean (or imported proof file) that no longer checks."""
     m = re.search(r'error: (LW/[A-Za-z0-9_/]+\.lean):(\d+):(\d+)', lake_out)
